@@ -23,6 +23,9 @@ pub enum Spin {
     ForEndless,
     Rec,
     PingPong,
+    /// a loop whose body only applies overridden operators (arithmetic, a derived comparison)
+    /// that complete: no ordinary call returns into the looping frame
+    LoopOps,
 }
 pub const SPINS: &[Spin] = &[
     Spin::Loop,
@@ -31,6 +34,7 @@ pub const SPINS: &[Spin] = &[
     Spin::ForEndless,
     Spin::Rec,
     Spin::PingPong,
+    Spin::LoopOps,
 ];
 
 #[derive(Clone, Copy, Debug, PartialEq, Eq, Hash)]
@@ -291,6 +295,20 @@ fn spin_lines(spec: &Spec) -> (Vec<String>, Vec<String>) {
             }
             defs.push("  g(k + 1, g)".to_string());
             lines = vec!["z = rec(0, rec)".into()];
+        }
+        (Spin::LoopOps, w) => {
+            defs.push("export cmo =".to_string());
+            defs.push("  @+: |other| self".to_string());
+            defs.push("  @<: |other| false".to_string());
+            lines.push("cx = cmo".into());
+            lines.push("loop".into());
+            lines.extend(indent(&body));
+            lines.push("  cx = cx + 1".into());
+            lines.push("  cq = cx >= 1".into());
+            if let Some(w) = w {
+                lines.push(format!("  if z >= {w}"));
+                lines.push("    break".into());
+            }
         }
         (Spin::PingPong, w) => {
             defs.push("export ping = |k|".to_string());
